@@ -679,6 +679,80 @@ class Sub:
 _Sub = Sub
 
 
+ACCESSOR_TABLES = {
+    'magic::get_king_moves': ['KING_MOVES'], 'magic::get_knight_moves': ['KNIGHT_MOVES'], 'magic::get_rank': ['RANKS'],
+    'magic::get_file': ['FILES'], 'magic::get_adjacent_files': ['ADJACENT_FILES'], 'magic::get_rook_rays': ['RAYS', 'ROOK'],
+    'magic::get_bishop_rays': ['RAYS', 'BISHOP'], 'magic::between': ['BETWEEN'], 'magic::line': ['LINE'],
+    'magic::get_castle_moves': ['CASTLE_MOVES'], 'magic::get_pawn_source_double_moves': ['PAWN_SOURCE_DOUBLE_MOVES'],
+    'magic::get_pawn_dest_double_moves': ['PAWN_DEST_DOUBLE_MOVES'], 'magic::get_pawn_attacks': ['PAWN_ATTACKS'],
+    'magic::get_pawn_quiets': ['PAWN_MOVES'], 'magic::get_pawn_moves': ['PAWN_ATTACKS', 'PAWN_MOVES'],
+    'castle_rights::CastleRights::kingside_squares': ['KINGSIDE_CASTLE_SQUARES'],
+    'castle_rights::CastleRights::queenside_squares': ['QUEENSIDE_CASTLE_SQUARES'],
+}
+SLIDER_LOOKUPS = ('magic::get_rook_moves', 'magic::get_bishop_moves')
+
+
+class _SubKeys(Sub):
+    """Sub that keeps only the findings about the named tables / accessors"""
+
+    def __init__(self, ctx, mapping, names):
+        Sub.__init__(self, ctx, mapping)
+        self.names = names
+
+    def _hit(self, text):
+        return any(n in text for n in self.names)
+
+    def violation(self, rule, key, msg, where=''):
+        if self._hit(key):
+            Sub.violation(self, rule, key, msg, where)
+
+    def ok(self, rule, desc, where=''):
+        if self._hit(desc) or self._hit(where):
+            Sub.ok(self, rule, desc, where)
+
+    def bulk(self, rule, total, discharged):
+        pass
+
+    def floor(self, rule, what, count, minimum):
+        return True
+
+
+def tables_dep(ctx, R, entries, only=None):
+    """The geometry the rule sets of a property take as given.  The accessors reachable in the call graph from the property's
+    anchor functions `entries` select the constant tables that matter to it; each of those equals its definition (C16.R1)
+    and each reachable accessor indexes its table with its arguments in the right roles (C16.R2); when a slider lookup is
+    reachable, also C15.R1/R2 for the default configuration.  `only` narrows the accessors to the ones the property's clauses
+    are computed from (when the anchors also do unrelated work).  Findings are relabelled to rule R of the calling property."""
+    from . import c16
+    eff = ctx.eff()
+    f = ctx.facts()
+    reach = set()
+    missing = [e for e in entries if e not in f.bodies]
+    for e in entries:
+        if e in f.bodies:
+            reach |= eff.reach(e)
+            for cl in [k for k in f.bodies if k.startswith(e + '::{closure')]:
+                reach |= eff.reach(cl)
+    for e in missing:
+        ctx.inconclusive(R, 'anchor not found: ' + e)
+    accs = sorted(a for a in ACCESSOR_TABLES if a in reach and (only is None or a in only))
+    names = set(accs)
+    for a in accs:
+        names |= {'magic::' + t for t in ACCESSOR_TABLES[a]}
+    if accs:
+        sub = _SubKeys(ctx, {'C16.R1': R, 'C16.R2': R}, names)
+        c16.r1(sub)
+        c16.r2(sub)
+        ctx.ok(R, 'geometry reachable from the anchors: %s -- tables and accessor shapes audited' % ', '.join(a.rsplit('::', 1)[-1] for a in accs), '')
+    if any(a in reach for a in SLIDER_LOOKUPS):
+        from . import c15
+        sub = Sub(ctx, {'C15.R1': R, 'C15.R2': R})
+        out = c15.r1(sub, 'default')
+        if out is not None:
+            c15.r2(sub, 'default', out[0], out[1])
+    return accs
+
+
 def decide_equal(ctx, expects, got, config=None):
     """Is `got` one of the expected expressions?  First literally (patterns may hold wildcards), then as decision trees
     (sa/treeq.py: negated tests, swapped branches, `match` vs `if`, nested `if` vs `&&`, early returns).
